@@ -52,6 +52,8 @@ def plain_spec(T):
     """True: the re-raised exception must have type T; False: StagingError; None: not judged;
     'key': KeyError (re-raised as a KeyError that prints the message)."""
     import builtins
+    if T.__module__ == 'malt.pyct.error_utils':
+        return None                               # malt's own KeyError subclass: only survival is judged
     for base in T.__mro__:
         if base.__flags__ & _HEAPTYPE:            # class defined in Python
             if '__init__' in vars(base):
@@ -450,6 +452,149 @@ REQUIRED_KNOWN = ['AssertionError', 'AttributeError', 'NameError', 'NotImplement
                   'StopIteration', 'TypeError', 'UnboundLocalError', 'ValueError']
 F_RECURSION = 'c12-recursion-shares-source-map'
 F_SINGLETON = 'c12-origin-on-shared-ast-singletons'
+F_REWRAP = 'c12-keyerror-rewrap'
+
+NEST_TEXT = '''import malt
+
+
+def w0(exc):
+  raise exc
+
+
+c0 = malt.convert()(w0)
+
+
+def w1(exc):
+  return c0(exc)
+
+
+c1 = malt.convert()(w1)
+
+
+def w2(exc):
+  return c1(exc)
+
+
+c2 = malt.convert(recursive=True)(w2)
+WRAPPERS = (c0, c1, c2)
+LINES = (5, 12, 19)
+'''
+
+
+def is_key_error(e):
+    return isinstance(e, KeyError) and type(e).__name__ == 'KeyError'
+
+
+def classify_rewrap(T, depth, first, observed):
+    """A KeyError (exactly) that crossed at least two wrappers: the first wrapper produced
+    MultilineMessageKeyError, a further one re-raises that as StagingError because create_exception tests
+    `preferred_type is KeyError`."""
+    from malt.impl import api
+    from malt.pyct import error_utils
+    return (T is KeyError and depth >= 2 and type(first) is error_utils.MultilineMessageKeyError
+            and type(observed) is api.StagingError)
+
+
+def nesting_oracle(types, fact_of, tmpdir, enc, cases, descr, failures, run):
+    """depth 1..3 of nested user-requested wrappers x every exception class of the table:
+    the type that reaches the caller must survive further conversion boundaries; message and one
+    stack entry per wrapper."""
+    from malt.impl import api
+    m, path = load_module(NEST_TEXT, 'c12nest', tmpdir)
+    n = 0
+    for T in types:
+        def make():
+            try:
+                return T('m %s' % T.__name__)
+            except Exception:   # noqa
+                return T.__new__(T)
+        try:
+            str(make())
+        except Exception:   # noqa
+            continue          # no printable instance without class-specific arguments
+        spec = plain_spec(T)
+        got = []
+        for d, w in enumerate(m.WRAPPERS, 1):
+            inst = make()
+            want_msg = '%s: %s' % (T.__name__, inst)
+            try:
+                w(inst)
+                e = None
+            except Exception as ex:   # noqa
+                e = ex
+            got.append(e)
+            n += 1
+            run.count()
+            run.nontriv(('nest', qualname(T) if '<locals>' not in qualname(T) else T.__name__, d))
+            bad = None
+            md = getattr(e, 'ag_error_metadata', None)
+            if e is None or md is None:
+                bad = 'no exception with ag_error_metadata reached the caller (%r)' % (e,)
+            elif spec is True and type(e) is not T:
+                bad = 'type %s arrives as %s' % (T.__name__, qualname(type(e)))
+            elif spec == 'key' and not is_key_error(e):
+                bad = 'KeyError arrives as %s' % qualname(type(e))
+            elif spec is False and type(e) is not api.StagingError:
+                bad = 'type %s (own initialiser) arrives as %s instead of StagingError' % (T.__name__, qualname(type(e)))
+            elif d > 1 and got[0] is not None and type(e) is not type(got[0]):
+                bad = 'type changes at a further conversion boundary: %s after one wrapper, %s after %d' % (
+                    qualname(type(got[0])), qualname(type(e)), d)
+            elif md.cause_message != want_msg:
+                bad = 'message %r arrives as %r' % (want_msg, md.cause_message)
+            else:
+                st = [(fi.lineno, fi.function_name, bool(fi.is_converted)) for fi in md.translated_stack if fi.filename == path]
+                want = [(m.LINES[i], 'w%d' % i, True) for i in range(d)]
+                if st != want:
+                    bad = 'translated_stack %r, expected one entry per wrapper %r' % (st, want)
+            if bad:
+                cls = None
+                if e is not None and classify_rewrap(T, d, got[0], e):
+                    cls = F_REWRAP
+                elif e is not None and classify_identity(T, type(e)):
+                    cls = F_IDENTITY
+                title = 'exception crossing %d malt.convert wrapper(s): %s' % (d, bad)
+                if cls:
+                    title = 'exception crossing nested malt.convert wrappers arrives with the wrong type'
+                failures.append((title, {'what': bad, 'exception_class': qualname(T), 'wrappers_crossed': d,
+                                         'program': NEST_TEXT,
+                                         'how': 'import the program; WRAPPERS[%d](%s(...)) ; compare type / ag_error_metadata' % (d - 1, T.__name__)},
+                                 cls))
+        # model: the chain of re-creations
+        if all(g is not None for g in got):
+            names = []
+            facts = []
+            cur = T
+            for g in got:
+                facts.append(bool(fact_of(cur)))
+                cur = type(g)
+                names.append(qualname(cur))
+            name0 = qualname(T)
+            if T.__module__ != 'builtins' and '<locals>' in name0:
+                name0 = 'harness.' + T.__name__
+            final = names[-1] if '<locals>' not in names[-1] else 'harness.' + type(got[-1]).__name__
+            cid = len(cases)
+            cases.append('CThrough %d "%s" [%s] "%s"' % (cid, name0, '; '.join(vlib.coq_bool(f) for f in facts), final))
+            descr[cid] = ('through', {'type': name0, 'facts': facts, 'implementation_types': names})
+    sys.modules.pop('c12nest', None)
+    return n
+
+
+def corpus_oracle(failures, run):
+    d = os.path.join(vlib.ROOT, 'corpus', PID)
+    for fn in sorted(os.listdir(d)) if os.path.isdir(d) else []:
+        if not fn.endswith('.py'):
+            continue
+        spec = importlib.util.spec_from_file_location('c12corpus_' + fn[:-3], os.path.join(d, fn))
+        mod = importlib.util.module_from_spec(spec)
+        spec.loader.exec_module(mod)
+        res = mod.run()
+        run.count(len(res))
+        for depth, e in res:
+            if not is_key_error(e):
+                cls = F_REWRAP if classify_rewrap(KeyError, depth, res[0][1], e) else None
+                failures.append(('exception crossing nested malt.convert wrappers arrives with the wrong type',
+                                 {'what': 'KeyError arrives as %r after %d wrapper(s)' % (type(e), depth),
+                                  'program': open(os.path.join(d, fn)).read(), 'corpus': 'corpus/%s/%s' % (PID, fn)}, cls))
 
 
 def classify_identity(T, observed_type):
@@ -650,10 +795,10 @@ def exception_cases(enc, cases, descr, fact_name):
             continue          # ExceptionGroup: no instance without arguments
         try:
             exc = md.create_exception(src)
-            if type(exc) is T:
+            if type(exc) is error_utils.MultilineMessageKeyError:
+                kind = 'MultilineKeyError'      # (also when T is that class: it cannot be built from a message alone)
+            elif type(exc) is T:
                 kind = 'Same'
-            elif type(exc) is error_utils.MultilineMessageKeyError:
-                kind = 'MultilineKeyError'
             elif type(exc) is api.StagingError:
                 kind = 'Staging'
             else:
@@ -672,7 +817,7 @@ def exception_cases(enc, cases, descr, fact_name):
         else:
             cases.append('CExc %d (mkexc "%s" %s %s) Staging' % (cid, name, vlib.coq_bool(fact), vlib.coq_bool(spec is True)))
         descr[cid] = ('create_exception', {'type': name, 'code_test_holds': fact, 'implementation': kind})
-    return obs
+    return obs, types
 
 
 def synthetic_smap_cases(rnd, n, enc, cases, descr):
@@ -760,7 +905,9 @@ def check(run):
                 'KeyError/IndexError/ZeroDivisionError/TypeError/AttributeError/assert/del/unpack) x hot statement at a '
                 'random position and nesting depth (if/elif/else/for/while/try-finally/try-except/with, in headers, '
                 'comprehensions, conditional and boolean expressions) x recursive in {True,False}; '
-                'distinct non-trivial = distinct (chain, failure kind, recursive, nesting path of the hot statement)'
+                'distinct non-trivial = distinct (chain, failure kind, recursive, nesting path of the hot statement); '
+                'plus: every exception class of the table (builtins, malt, user classes) x 1..3 nested user-requested '
+                'malt.convert wrappers (type must survive every further conversion boundary), and the corpus'
                 % (len(G.all_chains()), len(G.ALL_FAIL)))
     tmpdir = vlib.ensure_dir(os.path.join(vlib.BUILD, 'tmp', str(os.getpid())))
     old_tmp = os.environ.get('TMPDIR')
@@ -807,7 +954,14 @@ def _check(run, nprog, tmpdir):
 
     # 3a. synthetic correspondence
     synth_fails = synthetic_stack_cases(rnd, 120 if run.tier == 'quick' else 1500, enc, cases, descr)
-    exc_obs = exception_cases(enc, cases, descr, fact_name)
+    exc_obs, exc_types = exception_cases(enc, cases, descr, fact_name)
+
+    def fact_of(T):
+        if fact_name == 'identity':
+            return T.__init__ is Exception.__init__
+        if fact_name.startswith('call:'):
+            return bool(getattr(error_utils, fact_name[5:])(T))
+        return False
     synthetic_smap_cases(rnd, 60 if run.tier == 'quick' else 600, enc, cases, descr)
     run.count(len(cases))
 
@@ -827,6 +981,10 @@ def _check(run, nprog, tmpdir):
             failures.append((bad, {'what': bad, 'type': name,
                                    'replay': "PYTHONPATH=%s /venv/bin/python -c \"from malt.impl import api; T=%s; print(type(api._ErrorMetadata([], None, 'm', {}, 'x').create_exception(T.__new__(T))))\"" % (vlib.REPO, T.__name__ if T.__module__ == 'builtins' else 'type(%r, %r, {})' % (T.__name__, tuple(b.__name__ for b in T.__bases__)))},
                              cls))
+
+    # 4a. corpus first, then nested wrappers x every exception class of the table
+    corpus_oracle(failures, run)
+    run.extra['nested_wrapper_runs'] = nesting_oracle(exc_types, fact_of, tmpdir, enc, cases, descr, failures, run)
 
     # 3b + 4. generated programs
     chains = G.all_chains()
